@@ -123,6 +123,12 @@ func (C06) Gen(rt *rapid.T, tier string) any {
 		}
 		variant(p.place(fi, homeTmpl(rt, t, fi, "host.tm."+e), drawDir(rt, "host.dir."+e, false)), "host."+e)
 	}
+	if chance(rt, 15, "rpmwal") && p.free("var/lib/rpm/rpmdb.sqlite") && p.free("var/lib/rpm/Packages") {
+		// the snapshot of a live machine: a WAL-mode rpmdb.sqlite together with its -wal file
+		p.add(FileSpec{Path: "var/lib/rpm/rpmdb.sqlite", Src: Src{Gen: "rpm-wal-db"}})
+		p.add(FileSpec{Path: "var/lib/rpm/rpmdb.sqlite-wal", Src: Src{Gen: "rpm-wal-wal"}})
+		p.dirs["var/lib/rpm"] = true
+	}
 	n := 2 + pick(rt, 6, "nfiles")
 	for k := 0; k < n && len(cov) > 0; k++ {
 		e := cov[pick(rt, len(cov), fmt.Sprintf("f%d.ext", k))]
